@@ -106,7 +106,9 @@ def _provenance(chk, repo, ci, init):
     if funform and ydefs and any("is_par=False" not in v for v in ydefs):
         problems.append("exact solution is stored as function values but the forward call treats it as parameters")
     # data
-    ddefs = [_norm(d.value) for d in D.get("data", [])]
+    # the value of `data`, with temporaries (noise = ...; data = y + noise) replaced by their definitions down to the named quantities
+    from .common import assigned_values
+    ddefs = [v.replace(" ", "") for v in assigned_values(repo, ci, init, "data", stop=frozenset({Y, X, "sigma", "data_dist", "model"}))]
     formA = [v for v in ddefs if v == f"{Y}+np.random.normal(0,sigma,{Y}.shape)"]
     formB = [v for v in ddefs if v == f"data_dist({X}).sample()"]
     if len(ddefs) != 1 or not (formA or formB):
@@ -212,37 +214,59 @@ def _string_chain(node: ast.If):
 
 
 def _r4(chk, repo):
+    """Option dispatch, path-sensitively: in every function of the module, each expression S (after replacing locals by their definitions) that is compared
+    with string literals - `S == 'a'`, `S in ('a', 'b')`, `S in TABLE` for a module-level literal table - is an option subject. For the subjects that
+    select the noise model / boundary condition, a value matching none of the literals must end in a raise: from every test on S, following only the
+    out-edges a non-matching value takes at the tests on S (any edge at other tests), the function's normal exit is not reachable."""
+    from ..flow import Expander
+    from ..pattern import norm as pn
+    from .common import lit_test_any, literal_collections
     m = repo.mod(TP)
-    seen = set()
+    consts = literal_collections(m.tree)
     n = 0
-    for node in ast.walk(m.tree):
-        if isinstance(node, ast.If) and id(node) not in seen:
-            r = _string_chain(node)
-            if r is None:
+    from ..index import enclosing_class
+    fns = [f for f in ast.walk(m.tree) if isinstance(f, ast.FunctionDef)]
+    for ef in fns:
+        ec = enclosing_class(ef)
+        if ec is not None and ec.name.startswith("_"):
+            continue
+        if any(isinstance(p_, ast.FunctionDef) for p_ in _parents(ef)):
+            continue
+        ex = Expander(ef)
+        g = ex.cfg
+        subj = {}
+        for t in g.tests():
+            try:
+                e = ex.expand(t.ast, t)
+            except Exception:
+                e = t.ast
+            r = lit_test_any(e, consts)
+            if r is None or not all(isinstance(v, str) for v in r[1]):
                 continue
-            tests, final = r
-            cur = node
-            while len(cur.orelse) == 1 and isinstance(cur.orelse[0], ast.If):
-                cur = cur.orelse[0]
-                seen.add(id(cur))
-            subj = tests[0][0]
-            if len(tests) < 2 or not all(s == subj for s, _ in tests):
+            subj.setdefault(pn(r[0]), []).append((t, r[1], r[2]))
+        where = f"{(ec.name + '.') if ec else ''}{ef.name}"
+        for S, tests in sorted(subj.items()):
+            lits = sorted({v for _, ls, _ in tests for v in ls})
+            if len(lits) < 2:
                 continue
-            from ..index import enclosing_function, enclosing_class
-            ef, ec = enclosing_function(node), enclosing_class(node)
-            if ec is not None and ec.name.startswith("_"):
-                continue
-            where = f"{(ec.name + '.') if ec else ''}{ef.name if ef else '?'}"
-            refuses = bool(final) and any(isinstance(x, ast.Raise) for s in final for x in ast.walk(s))
-            important = subj.startswith(("noise_type", "BC", "bnd", "mode"))
-            if important:
+            # edges a value outside all literals cannot take
+            avoid = {(t.id, "T" if pos else "F") for t, ls, pos in tests}
+            refuses = all(g.exit.id not in g.reachable_from([t.id], avoid_edges=avoid) for t, _, _ in tests)
+            if S.startswith(("noise_type", "BC", "bnd", "mode")):
                 n += 1
-                chk.add("C17-R4", f"{TP}:{where}/chain({subj})", refuses, f"{m.rel}:{node.lineno}", f"options {[l for _, l in tests]} else refuse",
-                        f"option chain on `{subj}` ({[l for _, l in tests]}) does not refuse an unknown value", node)
+                chk.add("C17-R4", f"{TP}:{where}/chain({S})", refuses, f"{m.rel}:{tests[0][0].ast.lineno}", f"options {lits} else refuse",
+                        f"option dispatch on `{S}` ({lits}) does not refuse an unknown value: a value matching none of them reaches the end of the function", tests[0][0].ast)
             else:
-                chk.note(f"C17-R4 {where}: option chain on `{subj}` {[l for _, l in tests]} ends with {'a refusal' if refuses else ('a default branch' if final else 'no else branch (unknown value surfaces later as NameError)')}")
+                chk.note(f"C17-R4 {where}: option dispatch on `{S}` {lits} {'refuses' if refuses else 'does not refuse'} other values")
     if n < 4:
-        raise AnchorError(f"{n} noise-type/boundary chains found, 4 confirmed by hand")
+        raise AnchorError(f"{n} noise-type/boundary dispatches found, 4 confirmed by hand")
+
+
+def _parents(node):
+    cur = getattr(node, "_parent", None)
+    while cur is not None:
+        yield cur
+        cur = getattr(cur, "_parent", None)
 
 
 # ------------------------------------------------------------------------------------------------ R6
